@@ -197,6 +197,8 @@ def run_form(name: str, spec: dict) -> dict:
         _run_form(name, spec, res)
     except BudgetExceeded as e:
         res["outside"].append(f"{name}: polynomial size {e} over budget")
+    except gen.Rejected as e:
+        res["outside"].append(f"{name}: rejected by FFCx with {e}")
     except uflref.OracleUnsupported as e:
         res["outside"].append(f"{name}: oracle does not cover: {e}")
     except KsymError as e:
